@@ -784,6 +784,14 @@ class Lis:
                 rec.case(('engval', op, repr(name_a), repr(name_b)) + ((A, B) if reuse is not None else ()), True, classes=['engval-' + klass] + (['engval-history'] if reuse is not None else []))
                 ok = self.refuse('engval_refusal', klass + ':' + ('cmp' if op in comp else 'arith'), lambda: apply(op, a, b),
                                  {'call': 'EngVal(%r, %r) %s EngVal(%r, %r)' % (A, name_a, op, B, name_b), 'op': op})
+                # a refused operation "never returns a number": neither as a result nor left behind in the operands, which stay what
+                # they were (value and unit), so that the same question is refused again
+                rec.mon('engval_refusal_leaves_operands')
+                if not (a.value == A and a.uom == name_a and b.value == B and b.uom == name_b):
+                    self.rep('engval_refusal_leaves_operands', 'operand-changed:' + klass, 'after the refused EngVal(%r, %r) %s EngVal(%r, %r) the operands are EngVal(%r, %r) and EngVal(%r, %r)' % (
+                        A, name_a, op, B, name_b, a.value, a.uom, b.value, b.uom), {'op': op, 'before': [[A, repr(name_a)], [B, repr(name_b)]],
+                                                                                     'after': [[a.value, repr(a.uom)], [b.value, repr(b.uom)]]})
+                    prev = None
                 if ok:
                     rec.mon('eventlog:LIS.Units.convert', len(log))
                     if len(log) != 1 or 'exc' not in log[0]:
